@@ -368,6 +368,24 @@ fn gen_h(rng: &mut Rng, norm: &[Vec<Lit>], nv: usize, nsub: usize) -> String {
                 stack.last_mut().unwrap().insert(l);
                 out.push(format!("d:{}", slit(&l)));
             }
+            7 if stack.len() < 4 && undecided.len() >= 2 => {
+                // backtrack-and-branch: push, decide a, pop, decide b at the outer level, push again
+                // (the frame of the abandoned branch must not leak into the new one)
+                let a: Lit = (*rng.pick(&undecided), rng.coin());
+                let rest: Vec<u64> = undecided.iter().cloned().filter(|v| *v != a.0).collect();
+                let b: Lit = (*rng.pick(&rest), rng.coin());
+                out.push("push".into());
+                out.push(format!("d:{}", slit(&a)));
+                out.push("pop".into());
+                out.push(format!("d:{}", slit(&b)));
+                stack.last_mut().unwrap().insert(b);
+                let top2 = stack.last().unwrap().clone();
+                stack.push(top2.clone());
+                out.push("push".into());
+                let m = model_for(rng, &top2);
+                out.push(format!("q:{}", show_tfu(&m)));
+                nq += 1;
+            }
             6 if !undecided.is_empty() => {
                 // model-assigned versus decided: q(m+l) d:l q(m) q(m+l) have the same residual
                 let l: Lit = (*rng.pick(&undecided), rng.coin());
